@@ -823,8 +823,8 @@ func (cx *Ctx) c13Aborts(r *Report, get func(Entry) *c13Walk) {
 			}
 		}
 	}
-	if n < 5 {
-		r.toolErr("only %d abort-class sites found (≥5 confirmed)", n)
+	if n < 2 {
+		r.toolErr("only %d abort-class sites found (≥2 expected: the farm release quotient and the random generator's)", n)
 	}
 	// discarded errors inside block handlers (enumerated)
 	nd := 0
@@ -874,52 +874,67 @@ func (cx *Ctx) c13Aborts(r *Report, get func(Entry) *c13Walk) {
 // reviewedDivisor: reviewed quotients whose divisor is non-zero for a reason
 // outside the function; the structural part of the reason is re-checked.
 func (cx *Ctx) reviewedDivisor(s abortSite) string {
-	if shortFn(s.fn) != "(random/types.PRNG).GetRand" {
+	if moduleOf(funcPkgPath(s.fn)) != "random" {
 		return ""
 	}
-	c, ok := s.ins.(*ssa.Call)
-	if !ok {
-		return ""
-	}
-	// the divisor is big.NewInt(p.BlockTimestamp) or Exp(10, RandPrec)
-	de := s.den
-	if u, ok := de.(*ssa.UnOp); ok {
-		de = u.X
-	}
-	src := ""
-	var walk func(v ssa.Value, d int)
-	walk = func(v ssa.Value, d int) {
-		if d > 6 || src != "" {
-			return
+	// the divisor is big.NewInt(p.BlockTimestamp) or Exp(10, RandPrec), possibly handed
+	// to a helper as a parameter (then every caller must pass such a value)
+	var source func(v ssa.Value, depth int) string
+	source = func(v ssa.Value, depth int) string {
+		if depth > 8 || v == nil {
+			return ""
 		}
-		if cc, ok := v.(*ssa.Call); ok {
-			_, n := calleeName(cc.Common())
+		switch x := v.(type) {
+		case *ssa.Parameter:
+			fn := x.Parent()
+			idx := -1
+			for i, p := range fn.Params {
+				if p == x {
+					idx = i
+				}
+			}
+			res := ""
+			for _, cs := range cx.CallersOf(fn) {
+				cc := cs.Site.Common()
+				if cc.IsInvoke() || cc.StaticCallee() != fn || idx < 0 || idx >= len(cc.Args) {
+					continue
+				}
+				r := source(cc.Args[idx], depth+1)
+				if r == "" || (res != "" && res != r) {
+					return ""
+				}
+				res = r
+			}
+			return res
+		case *ssa.Call:
+			_, n := calleeName(x.Common())
 			switch {
-			case strings.HasSuffix(n, "NewInt") && len(cc.Common().Args) == 1:
-				if fa, ok := cc.Common().Args[0].(*ssa.UnOp); ok {
+			case strings.HasSuffix(n, "NewInt") && len(x.Common().Args) == 1:
+				if fa, ok := x.Common().Args[0].(*ssa.UnOp); ok {
 					if f, ok := fa.X.(*ssa.FieldAddr); ok && fieldNameShort(f.X.Type(), f.Field) == "BlockTimestamp" {
-						src = "timestamp"
+						return "timestamp"
 					}
 				}
-				if f, ok := cc.Common().Args[0].(*ssa.Field); ok && fieldNameShort(f.X.Type(), f.Field) == "BlockTimestamp" {
-					src = "timestamp"
+				if f, ok := x.Common().Args[0].(*ssa.Field); ok && fieldNameShort(f.X.Type(), f.Field) == "BlockTimestamp" {
+					return "timestamp"
 				}
-				return
+				return ""
 			case strings.HasSuffix(n, "Int.Exp"):
-				src = "exp"
-				return
+				return "exp"
 			}
 		}
 		if ins, ok := v.(ssa.Instruction); ok {
 			for _, op := range ins.Operands(nil) {
 				if op != nil && *op != nil {
-					walk(*op, d+1)
+					if r := source(*op, depth+1); r != "" {
+						return r
+					}
 				}
 			}
 		}
+		return ""
 	}
-	walk(s.den, 0)
-	_ = c
+	src := source(s.den, 0)
 	switch src {
 	case "timestamp":
 		// every generator is built with the block header time
@@ -939,6 +954,36 @@ func (cx *Ctx) reviewedDivisor(s abortSite) string {
 					if cc, ok := v.(*ssa.Call); ok {
 						_, nm := calleeName(cc.Common())
 						names += nm + ";"
+					}
+					if pr, ok := v.(*ssa.Parameter); ok {
+						fn := pr.Parent()
+						for i, q := range fn.Params {
+							if q != pr {
+								continue
+							}
+							for _, cs := range cx.CallersOf(fn) {
+								cc := cs.Site.Common()
+								if !cc.IsInvoke() && cc.StaticCallee() == fn && i < len(cc.Args) {
+									sl(cc.Args[i], d+1)
+								}
+							}
+						}
+					}
+					if fv, ok := v.(*ssa.FreeVar); ok {
+						// captured by a closure: the binding at the creation site
+						if par := fv.Parent().Parent(); par != nil {
+							for _, b := range par.Blocks {
+								for _, ins := range b.Instrs {
+									if mc, ok := ins.(*ssa.MakeClosure); ok && mc.Fn == fv.Parent() {
+										for i, q := range fv.Parent().FreeVars {
+											if q == fv && i < len(mc.Bindings) {
+												sl(mc.Bindings[i], d+1)
+											}
+										}
+									}
+								}
+							}
+						}
 					}
 					if ins, ok := v.(ssa.Instruction); ok {
 						for _, op := range ins.Operands(nil) {
